@@ -13,7 +13,8 @@ PROPS = {'C11'}
 
 def observer_cases(props, tier):
     cs = []
-    for mode, ts in (('opening', (0,)), ('known', (0, 1, 2, 3)), ('is_dummy', (0, 1, 2, 3))):
+    for mode, ts in (('opening', (0,)), ('known', (0, 1, 2, 3)), ('is_dummy', (0, 1, 2, 3)),
+                     ('is_dummy_alias', (0, 1, 2, 3)), ('is_dummy_copy', (0, 3))):
         for t in ts:
             for turn in range(1, 5):
                 cs.append((play.case_observer, f'observer product step: {mode}, {t} cards on the table, seat {turn} on turn',
